@@ -29,9 +29,10 @@ type replayInput struct {
 }
 
 var (
-	res      *lib.Result
-	drv      *lib.Driver
-	thorough bool
+	res         *lib.Result
+	drv         *lib.Driver
+	thorough    bool
+	sweepBudget int
 )
 
 func profile(r *lib.RNG) lib.Profile {
@@ -117,6 +118,28 @@ func checkProgram(src string) {
 			Oracle: "the optimized run dispatches the same opcode sequence as the unoptimized run"})
 	}
 	res.Sample(map[string]interface{}{"stream": "twin", "source": src, "outcome": clip(ru.String(), 200)}, 3)
+	// sweep: force the allocation-limit error at the k-th tracked allocation, for every k the run performs
+	// (bounded): both twins must report it at the same position — this probes the source map at every
+	// allocating instruction on the executed path, not only where the program happens to fail.
+	if removedAny && sweepBudget > 0 {
+		sweepBudget--
+		for k := int64(1); k <= 16; k++ {
+			su := lib.RunBytecode(u, lib.RunOpts{MaxAllocs: k})
+			so := lib.RunBytecode(o, lib.RunOpts{MaxAllocs: k})
+			res.Count("sweep", fmt.Sprintf("%d|%s", k, src), true)
+			// only the error (text with positions) is compared: the partial globals at the moment the
+			// limit hits may legitimately depend on map iteration order
+			if su.Err != so.Err || su.Panic != so.Panic {
+				res.Violate(lib.Violation{Signature: "twin-run-differs-under-alloc-limit", Stream: "sweep",
+					Input: replayInput{Source: src, Insts: fmt.Sprintf("maxAllocs=%d", k)}, Observed: clip(so.Err+so.Panic, 600), Expected: clip(su.Err+su.Panic, 600),
+					Oracle: "optimized run == unoptimized run with the allocation limit error forced at the k-th allocation (error text with positions)"})
+				break
+			}
+			if !strings.Contains(su.Err, "allocation limit") {
+				break // the run needs fewer than k allocations
+			}
+		}
+	}
 }
 
 // unoptimizedTwin clones the optimized bytecode and replaces every function
@@ -422,6 +445,44 @@ func skeletons(maxLen int) {
 	}
 }
 
+// deadCodeProgram builds a function whose body mixes removed code (statements after
+// return/break/continue) with later logical operators, ternaries, loops and operations that
+// fail for some arguments, and calls it with one argument tuple.
+func deadCodeProgram(r *lib.RNG) string {
+	dead := []string{"b = b", "a = !a", "x := [a, b]", "return b", "b += 1", "for { break }", "a = a && b || a"}
+	val := []string{"a", "b", "1", "b - 1", "[a][0]", "a || b", "a && b", "b ? a : 2", "(a || b) && (b || a)", "len([a, b])", "b + 1", "string(b)"}
+	var sb strings.Builder
+	sb.WriteString("f := func(a, b) {\n")
+	n := 1 + r.Intn(3)
+	for i := 0; i < n; i++ {
+		switch r.Intn(5) {
+		case 0:
+			fmt.Fprintf(&sb, "\tif %s {\n\t\treturn %s\n\t\t%s\n\t}\n", lib.Pick(r, []string{"a", "!a", "a && b", "false", "is_string(b)"}), lib.Pick(r, val), lib.Pick(r, dead))
+		case 1:
+			fmt.Fprintf(&sb, "\tfor i := 0; i < 3; i++ {\n\t\tif i == %d { %s; %s }\n\t\t%s\n\t}\n", r.Intn(3), lib.Pick(r, []string{"break", "continue", "return i"}), lib.Pick(r, dead), lib.Pick(r, []string{"b = b", "continue; b = 0", "x := i || a"}))
+		case 2:
+			fmt.Fprintf(&sb, "\tif %s {\n\t\treturn\n\t\t%s\n\t} else if %s {\n\t\t%s\n\t}\n", lib.Pick(r, []string{"a", "false", "b == 0"}), lib.Pick(r, dead), lib.Pick(r, []string{"b", "!b"}), lib.Pick(r, []string{"b = [b]", "return a; a = 1", "a = b"}))
+		case 3:
+			fmt.Fprintf(&sb, "\tc%d := %s\n", i, lib.Pick(r, val))
+		default:
+			fmt.Fprintf(&sb, "\tfor v in [a, b] {\n\t\tif v { continue; %s }\n\t\tbreak\n\t\t%s\n\t}\n", lib.Pick(r, dead), lib.Pick(r, dead))
+		}
+	}
+	for i := 0; i < 1+r.Intn(3); i++ {
+		fmt.Fprintf(&sb, "\td%d := %s\n", i, lib.Pick(r, val))
+	}
+	if r.Bool() { // without a final return the optimizer appends one
+		fmt.Fprintf(&sb, "\treturn %s\n", lib.Pick(r, val))
+		if r.Bool() {
+			fmt.Fprintf(&sb, "\t%s\n", lib.Pick(r, dead))
+		}
+	}
+	sb.WriteString("}\n")
+	args := []string{"true", "false", "0", "1", "\"s\"", "undefined", "[1]"}
+	fmt.Fprintf(&sb, "out := f(%s, %s)\n", lib.Pick(r, args), lib.Pick(r, args))
+	return sb.String()
+}
+
 func fatal(err error) {
 	fmt.Fprintln(os.Stderr, "c03:", err)
 	os.Exit(3)
@@ -431,6 +492,7 @@ func main() {
 	f := lib.ParseFlags()
 	res = lib.NewResult("C03", f)
 	thorough = f.Thorough()
+	sweepBudget = f.Scale(120, 8000)
 	var err error
 	drv, err = lib.StartDriver(f.Driver)
 	if err != nil {
@@ -461,6 +523,10 @@ func main() {
 				res.Distribution["feat:"+k] += v
 			}
 		}
+	}
+	nt := f.Scale(1500, 60000)
+	for i := 0; i < nt; i++ {
+		checkProgram(deadCodeProgram(rng.Fork()))
 	}
 	skeletons(f.Scale(4, 6))
 	res.Extra = map[string]interface{}{"skeleton_max_len": f.Scale(4, 6)}
